@@ -7,6 +7,7 @@ import (
 	"log"
 	"os"
 	"path/filepath"
+	"runtime/debug"
 	"sort"
 	"strings"
 )
@@ -103,7 +104,16 @@ func main() {
 	c := &Ctx{ID: strings.ToUpper(id), Seed: *seed, Tier: *tier, Out: *out, Work: *work,
 		Rep:   &Report{Property: strings.ToUpper(id), Seed: *seed, Tier: *tier, Dist: map[string]int{}, OracleFailures: []OracleFailure{}, Extra: map[string]interface{}{}},
 		nontr: map[string]bool{}}
-	cmd(c)
+	func() {
+		// a panic on the main goroutine while the implementation is being driven is an observation, not a reason
+		// to lose the report: it is recorded as a failure of the check
+		defer func() {
+			if r := recover(); r != nil {
+				c.Fail("", fmt.Sprintf("the run stopped with a panic (harness main goroutine): %v\n%s", r, tail(string(debug.Stack()), 1800)), nil)
+			}
+		}()
+		cmd(c)
+	}()
 	c.Rep.Nontrivial = len(c.nontr)
 	b, _ := json.MarshalIndent(c.Rep, "", " ")
 	mustNoErr(os.WriteFile(filepath.Join(*out, c.ID+".json"), b, 0644))
